@@ -97,6 +97,37 @@ fn check_range(c: &GCase, obs: &mut Obs) -> CheckResult {
             obs.class("wide_integer_range");
         }
     }
+    // omitted start (0) / omitted step (1) for float element types: non-integer ends and starts
+    {
+        let endf = c.end as f64 * sc + 0.5 * (c.n % 2) as f64 * sc; // on the dyadic grid, often non-integer
+        let count = |a: f64, b: f64, st: f64| -> Vec<f64> {
+            let mut out = vec![];
+            let mut k = 0.0;
+            while (st > 0.0 && a + st * k < b) || (st < 0.0 && a + st * k > b) {
+                out.push(a + st * k);
+                k += 1.0;
+            }
+            out
+        };
+        let v: Vec<f64> = Vec1Create::range(None, endf, None);
+        if v != count(0.0, endf, 1.0) {
+            return fail("range<f64>:defaults", format!("range(None, {}, None) as f64 = {:?}, progression is {:?}", endf, v, count(0.0, endf, 1.0)));
+        }
+        let v: Array1<f32> = Vec1Create::range(None, endf as f32, None);
+        if v.iter().map(|x| *x as f64).collect::<Vec<_>>() != count(0.0, endf, 1.0) {
+            return fail("range<f32>:defaults", format!("range(None, {}, None) as f32 = {:?}", endf, v));
+        }
+        let startf = c.start as f64 * sc;
+        let v: Vec<Option<f64>> = Vec1Create::range(Some(startf), endf, None);
+        if v != count(startf, endf, 1.0).into_iter().map(Some).collect::<Vec<_>>() {
+            return fail("range<Option<f64>>:default-step", format!("range({}, {}, None) = {:?}", startf, endf, v));
+        }
+        let stf = c.step as f64 * sc;
+        let v: Vec<f64> = Vec1Create::range(None, endf, Some(stf));
+        if v != count(0.0, endf, stf) {
+            return fail("range<f64>:default-start", format!("range(None, {}, {}) = {:?}, progression is {:?}", endf, stf, v, count(0.0, endf, stf)));
+        }
+    }
     // omitted start (0) / omitted step (1)
     if c.omit % 2 == 0 && c.end >= 0 {
         let v: Vec<i32> = Vec1Create::range(None, c.end, None);
@@ -397,6 +428,70 @@ fn check_write(c: &WCase, obs: &mut Obs) -> CheckResult {
     Ok(())
 }
 
+/// write / write_trust_iter into the REAL caller-supplied buffers: a physically wrapped VecDeque and a
+/// strided / reversed ndarray view inside a padded allocation (both pre-filled with a sentinel, so
+/// reading back is defined). Same contract as for the instrumented buffer: all slots or none.
+fn check_write_real(c: &WCase, obs: &mut Obs) -> CheckResult {
+    use std::mem::MaybeUninit;
+    use tevec::export::ndarray::s;
+    use tevec::prelude::UninitRefMut;
+    const SENT: i32 = -777;
+    let items: Vec<i32> = (0..c.iter_len as i32).map(|i| 100 + i).collect();
+    let expect_ok = c.buf_len == 0 || c.iter_len == c.buf_len || c.iter_len == 1;
+    let want: Vec<i32> = if c.buf_len == 0 {
+        vec![]
+    } else if c.iter_len == c.buf_len {
+        items.clone()
+    } else if c.iter_len == 1 {
+        vec![100; c.buf_len]
+    } else {
+        vec![SENT; c.buf_len]
+    };
+    for via_write in [true, false] {
+        let what = if via_write { "write" } else { "write_trust_iter" };
+        // (a) wrapped deque
+        let mut dq: VecDeque<MaybeUninit<i32>> = VecDeque::with_capacity(c.buf_len.max(1));
+        let cap = dq.capacity();
+        let r = if c.buf_len == 0 { 0 } else { (1 + c.iter_len % 3) % cap.max(1) };
+        for _ in 0..r {
+            dq.push_back(MaybeUninit::new(SENT));
+        }
+        for _ in 0..r {
+            dq.pop_front();
+        }
+        for _ in 0..c.buf_len {
+            dq.push_back(MaybeUninit::new(SENT));
+        }
+        let wrapped = !dq.as_slices().1.is_empty();
+        let res = {
+            let mut rf = &mut dq;
+            if via_write { items.clone().into_iter().write(&mut rf) } else { rf.write_trust_iter(items.clone().into_iter()) }
+        };
+        let got: Vec<i32> = dq.iter().map(|v| unsafe { v.assume_init() }).collect();
+        if res.is_ok() != expect_ok || got != want {
+            return fail(format!("{}:vecdeque-buffer", what), format!("{} of {} items into a {} VecDeque buffer of {}: result ok = {}, buffer {:?}, expected ok = {}, {:?}", what, c.iter_len, if wrapped { "wrapped" } else { "contiguous" }, c.buf_len, res.is_ok(), got, expect_ok, want));
+        }
+        obs.class_if(wrapped, "deque_wrapped");
+        // (b) strided / reversed ndarray view
+        let step = [2isize, -1, 3, -2, 1][(c.buf_len + c.iter_len) % 5];
+        let st = step.unsigned_abs();
+        let plen = if c.buf_len == 0 { 0 } else { (c.buf_len - 1) * st + 1 };
+        let pad = c.buf_len + 2;
+        let mut parent: Array1<MaybeUninit<i32>> = Array1::from_elem(plen + 2 * pad, MaybeUninit::new(SENT));
+        let res = {
+            let mut view = parent.slice_mut(s![pad..pad + plen;step]);
+            if via_write { items.clone().into_iter().write(&mut view) } else { view.write_trust_iter(items.clone().into_iter()) }
+        };
+        let got: Vec<i32> = parent.slice(s![pad..pad + plen;step]).iter().map(|v| unsafe { v.assume_init() }).collect();
+        let touched = parent.iter().filter(|v| unsafe { v.assume_init() } != SENT).count();
+        if res.is_ok() != expect_ok || got != want || touched != want.iter().filter(|v| **v != SENT).count() {
+            return fail(format!("{}:ndarray-view-buffer", what), format!("{} of {} items into an ndarray view (step {}) of {}: result ok = {}, view {:?} ({} cells of the allocation touched), expected ok = {}, {:?}", what, c.iter_len, step, c.buf_len, res.is_ok(), got, touched, expect_ok, want));
+        }
+    }
+    obs.set_nontrivial(c.buf_len >= 2);
+    Ok(())
+}
+
 fn main() {
     let mut p = Property::new(
         "C19",
@@ -409,5 +504,6 @@ fn main() {
     p.add(sub("linspace_full_empty", 20000, 800000, g_case, check_linspace));
     p.add(sub("collectors", 20000, 600000, c_case, check_collect));
     p.add(sub("write_uninit", 5000, 50000, w_case, check_write));
+    p.add(tvh::engine::canary(sub("write_real_buffers", 2000, 20000, w_case, check_write_real)));
     main_for(p);
 }
